@@ -1,6 +1,6 @@
 INIT MCInit
 NEXT MCNext
-CONSTANT Shapes = {1, 2, 3, 4, 5, 6, 7, 8, 9, 10, 11, 12, 13}
+CONSTANT Shapes = {1, 2, 3, 4, 5, 6, 7, 8, 9, 10, 11, 12, 13, 14}
 CONSTANT MaxLen = 5
 CONSTANT Ext = 1
 CONSTANT LangLen = 3
